@@ -94,6 +94,7 @@ class Stmt:
         self.subselect = None  # for DELETE ... IN (SELECT ...)
         self.partial = False
         self.error = None
+        self.offset = None
 
     @property
     def is_write(self):
@@ -414,6 +415,12 @@ class Parser:
                     break
         if self.eat_kw('LIMIT'):
             st.limit = self.add_expr()
+            if self.eat_kw('OFFSET'):
+                st.offset = self.add_expr()
+            elif self.eat_op(','):
+                # LIMIT offset, count
+                st.offset = st.limit
+                st.limit = self.add_expr()
         return st
 
     def statement(self):
